@@ -87,6 +87,7 @@ func envRecvImpl(comp bool, max int, tail string, flat []byte, cuts []int, withD
 
 // envRecvOp runs one env.recv op and returns the canonical answer.
 func envRecvOp(c *Ctx, op string) string {
+	c.Begin(op)
 	a := kvArgs(strings.Fields(op))
 	max, _ := strconv.Atoi(a["max"])
 	ans := safely(func() string {
@@ -99,6 +100,7 @@ func envRecvOp(c *Ctx, op string) string {
 }
 
 func envWriteOp(c *Ctx, op string) string {
+	c.Begin(op)
 	a := kvArgs(strings.Fields(op))
 	min, _ := strconv.Atoi(a["min"])
 	var msgs [][]byte
